@@ -13,21 +13,21 @@ import (
 )
 
 type c03Inflight struct {
-	Kind string        `json:"kind"` // early | late | never | edge- | edge+ | edge0 | upgrade
+	Kind string        `json:"kind"`               // early | late | never | edge- | edge+ | edge0 | upgrade
 	Fin  time.Duration `json:"finish_after_drain"` // natural finish, relative to the drain start
 }
 
 type c03Scenario struct {
-	Idx      int           `json:"idx"`
-	Cmd      string        `json:"cmd"` // deploy | pause | stop | rollout-deploy
-	NT       int           `json:"n_targets"`
-	Rollout  bool          `json:"has_rollout"` // service also has rollout targets (pause/stop drain both)
-	DrainTO  time.Duration `json:"drain_timeout"`
-	Inflight []c03Inflight `json:"inflight"`
-	Placed   bool          `json:"placed"` // hook-placed late arrivals instead of exact-time clauses
-	CmdDelay time.Duration `json:"cmd_hook_delay"`
+	Idx      int             `json:"idx"`
+	Cmd      string          `json:"cmd"` // deploy | pause | stop | rollout-deploy
+	NT       int             `json:"n_targets"`
+	Rollout  bool            `json:"has_rollout"` // service also has rollout targets (pause/stop drain both)
+	DrainTO  time.Duration   `json:"drain_timeout"`
+	Inflight []c03Inflight   `json:"inflight"`
+	Placed   bool            `json:"placed"` // hook-placed late arrivals instead of exact-time clauses
+	CmdDelay time.Duration   `json:"cmd_hook_delay"`
 	ReqDs    []time.Duration `json:"req_delays"`
-	ProbeIv  time.Duration `json:"probe_interval"`
+	ProbeIv  time.Duration   `json:"probe_interval"`
 }
 
 func c03Gen(rng *rand.Rand, idx int) c03Scenario {
